@@ -141,10 +141,22 @@ def run_history(fx, slog, rl, rec, r, retries, ncalls, script, sername, hh):
     clean = True       # the previous call met no fault and got its own answer: nothing stale can be in flight
     del rl.anomalies[:]
     try:
+        # half-way through, an application that started with retries switches them off on the same proxy (per-proxy setting, documented):
+        # from then on the lower budget counts, also for methods this proxy has called before
+        switch_at = ncalls // 2 if (retries > 0 and getattr(r, "random", None) and r.random() < 0.6) else None
+        if hasattr(r, "switch_at"):
+            switch_at = r.switch_at          # (replay of a recorded witness)
+        budget = {}
+        cur_retries = retries
+        pay["switch_at"] = switch_at
         for ci in range(ncalls):
+            if switch_at is not None and ci == switch_at:
+                p._pyroMaxRetries = cur_retries = 0
+                rec.count("retries_switched_off_midway")
             kind = r.choice(KINDS)
             kinds.append(kind)
             tok = "T%s.%d.%s;" % (hh, ci, kind)
+            budget[tok] = cur_retries
             tokens.append((tok, kind))
             rl.current_token = tok
             P.callcontext.current_context.annotations = {"TOKN": tok.encode()}     # every request of this call (also stream fetches / attribute reads) names its token
@@ -352,8 +364,8 @@ def run_history(fx, slog, rl, rec, r, retries, ncalls, script, sername, hh):
             rec.violation("executions-differ-from-delivered-requests", "token %s (%s): method ran %d times but the relay forwarded %d request(s) carrying it (received %d); retries=%d; actions %r" % (
                 tok, kind, ex, fw, rc, retries, [a for a in rl.applied if a[0] == tok]), dict(pay, kinds=kinds))
             return
-        if rc > 1 + retries:
-            rec.violation("too-many-attempts", "token %s (%s): %d attempts with MAX_RETRIES=%d" % (tok, kind, rc, retries), dict(pay, kinds=kinds))
+        if rc > 1 + budget.get(tok, retries):
+            rec.violation("too-many-attempts", "token %s (%s): %d attempts with MAX_RETRIES=%d%s" % (tok, kind, rc, budget.get(tok, retries), " (switched off on this proxy half-way through the history; it was %d before)" % retries if budget.get(tok, retries) != retries else ""), dict(pay, kinds=kinds))
             return
         nfaults = sum(1 for a in rl.applied if a[0] == tok and a[1] not in ("deliver", "deliver-oneway", "tokenless-request"))
         if rc - 1 > nfaults and durations.get(tok, 0.0) >= 0.14 * (rc - 1 - nfaults):
@@ -420,6 +432,7 @@ def replay(payload, rec):
             def __init__(self):
                 self.i = 0
                 self.knob, self.glob = payload.get("knob"), payload.get("global_retries")
+                self.switch_at = payload.get("switch_at")
 
             def choice(self, seq):
                 if seq is KINDS and self.i < len(kinds):
